@@ -8,12 +8,12 @@
 (* bookmarks on pages (and the conventional (0,0)), and every start value of Starts.  The call is   *)
 (* then run action by action (RenumberSys) and its result judged by the declarative layer.          *)
 (*                                                                                                  *)
-(* Refines:          the verdict is in Allowed.  "As the code is" (DevChain, DevDang, DevUnder =    *)
-(*                   FALSE since the fix: commits 15b16d5, c3b4cbb, 056314e, 07306e7) Allowed =      *)
-(*                   {"ok"}.  With the switches TRUE (cfg *_seeded: the repaired defects seeded      *)
-(*                   back into the design, a negative control) Allowed lists exactly the             *)
-(*                   signatures of the former findings.                                              *)
-(* RepairedRefines:  (seeded cfg) the variant without deviations is Acceptable on the same document. *)
+(* Refines:          every failing clause (tag) of the verdict is in Allowed.  "As the code is" all  *)
+(*                   Dev* switches are FALSE (fix: commits 15b16d5, c3b4cbb, 056314e, 07306e7,       *)
+(*                   f680fb8, 8f131f7, a548fc6) and Allowed = {"ok"}: no counter-example.  The cfgs  *)
+(*                   *_seeded and *_seeded2 seed the repaired defects back into the design (negative *)
+(*                   controls): Allowed lists exactly the tags of those former findings.             *)
+(* RepairedRefines:  the variant without any deviation (NoDev) is Acceptable on the same document.   *)
 (* Consistent:       Acceptable <=> Fails = {} (the two formulations of the declarative layer).     *)
 (* FunctionForm:     the action-by-action run equals ImplRun.                                       *)
 (* With Emit = TRUE every completed case is printed as one JSON line for replay into lopdf.         *)
@@ -23,7 +23,7 @@ CONSTANTS Layouts,      \* set of layout records (see Lay)
           DangIds,      \* ids offered as dangling targets (those that name an object are dropped)
           Starts,       \* starting_id values (0 is always offered for the empty document)
           DevUnder,     \* TRUE = the repaired defect: `new_id - 1` on an empty document with start 0 panics
-          Allowed,      \* verdicts the run may produce
+          Allowed,      \* clause tags the run may produce ("ok" stands for none)
           Emit, EmitMod
 
 VARIABLES lay, ids, slots,
@@ -63,6 +63,7 @@ LayDup3    == WithDup(Lay(5, 3, TRUE, {1, 2, 3, 4, 6}, 0, 0, FALSE, 1, FALSE, TR
 LayBmDang  == WithBmDang(Lay(3, 1, TRUE, {1, 3, 5}, 0, 0, FALSE, 2, FALSE, TRUE), {<<2, 0>>, <<9, 0>>})
 LayShared2 == Shared(Lay(4, 2, TRUE, {1, 2, 3}, 2, 0, FALSE, 1, FALSE, TRUE))
 LayShared1 == Shared(Lay(4, 1, TRUE, {1, 2, 3}, 2, 1, FALSE, 1, FALSE, TRUE))
+LayShared3 == Shared(Lay(5, 3, TRUE, {1, 2, 3}, 2, 0, FALSE, 0, FALSE, TRUE))     \* two of three pages under one number
 
 LayoutsQuick ==
     {Lay(0, 0, FALSE, {1}, 0, 1, FALSE, 0, FALSE, TRUE),
@@ -73,9 +74,14 @@ LayoutsQuick ==
      Lay(4, 1, TRUE, {1, 2, 3, 5}, 0, 1, FALSE, 1, FALSE, TRUE),
      LayDeep(47), LayBm3, LayDup2, LayBmDang, LayShared2}
 
-\* the quick layouts without the shapes of the findings that are still open (negative control of the
-\* declarative layer with the four repaired defects seeded back, MC_Renumber_quick_seeded.cfg)
+\* Negative controls of the declarative layer (the repaired defects seeded back into the design):
+\*  MC_Renumber_quick_seeded.cfg   bookmark.chain, dangling.capture, dangling.capture.pageorder, panic.empty0
+\*                                 (DevChain, DevDang, DevUnder and, for the page-order capture, DevClash)
+\*                                 on the layouts that do not have the shapes of the later three;
+\*  MC_Renumber_quick_seeded2.cfg  pageorder.dupkids, pageorder.numclash, bookmark.dangling.capture
+\*                                 (DevDup, DevClash, DevBmDang) on the layouts that have those shapes.
 LayoutsFormer == LayoutsQuick \ {LayDup2, LayBmDang, LayShared2}
+LayoutsLater  == {LayDup2, LayBmDang, LayShared2, Lay(0, 0, FALSE, {1}, 0, 0, FALSE, 0, FALSE, TRUE)}
 
 LayoutsThorough ==
     {Lay(0, 0, FALSE, {1}, 0, 1, FALSE, 0, FALSE, FALSE),
@@ -89,7 +95,7 @@ LayoutsThorough ==
      Lay(5, 3, TRUE, {1, 2, 3, 4, 6}, 1, 1, FALSE, 3, FALSE, TRUE),
      Lay(5, 2, TRUE, {1, 2, 3, 4, 6}, 0, 1, FALSE, 2, FALSE, TRUE),
      LayDeep(1), LayDeep(2), LayDeep(10), LayDeep(46), LayDeep(47), LayBm3,
-     LayDup2, LayDup3, LayBmDang, LayShared2, LayShared1}
+     LayDup2, LayDup3, LayBmDang, LayShared2, LayShared1, LayShared3}
 
 \* smallest layout that takes every action (coverage run)
 LayoutsCov == {Lay(0, 0, FALSE, {1}, 0, 0, FALSE, 0, FALSE, TRUE), Lay(4, 2, TRUE, {1, 2, 3, 5}, 0, 0, FALSE, 1, FALSE, TRUE)}
@@ -213,10 +219,11 @@ Next == Build1 \/ Build2 \/ Build3 \/ BeginS \/ PagePairS \/ PageFinishS \/ Dens
 Spec == Init /\ [][Next]_vars
 
 -----------------------------------------------------------------------------
-Verdict ==
-    IF s.panic THEN "panic.empty0" ELSE VerdictOf(Classify(before, After, start))
+\* the failing clauses, classified against the algorithm this run executes (its own switches)
+VerdictTags == IF s.panic THEN {"panic.empty0"} ELSE ClassifyX(before, After, start, DevRec)
+Verdict     == IF s.panic THEN "panic.empty0" ELSE VerdictOf(VerdictTags)
 
-Refines == pc = "done" => Verdict \in Allowed
+Refines == pc = "done" => VerdictTags \subseteq Allowed          \* Allowed: set of clause tags ({} = "ok")
 
 Consistent == (pc = "done" /\ ~s.panic) => (Acceptable(before, After, start) <=> Fails(before, After, start) = {})
 
